@@ -15,11 +15,14 @@ CONFIG = {
             'FileStream (real temporary file, empty / 2 bytes), plus every history of 4-5 (quick) / 4-6 (thorough) calls over a '
             '5-6 letter alphabet; (2) random histories of 150-6000 calls per store with positions aimed at the end of the data '
             'and at 2^63 / 2^64-k; (3) dmlc::ostream with buffer sizes 0..17 and 1024: every sequence of <= 2-4 operations over '
-            '{put, write of 0/1/2/cap-1/cap/cap+1/2cap+1 bytes via write() or operator<<, flush, set_stream, overflow(EOF), seek '
-            'of the wrapped stream} followed by destruction, plus random sequences of up to 600 operations; (4) dmlc::istream, '
+            '{put, write of 0/1/2/cap-1/cap/cap+1/2cap+1 bytes via write() or operator<<, flush, set_stream to the same / another of three '
+            'recording streams, overflow(EOF), seek of the wrapped stream} followed by destruction, plus random sequences of up to 600 '
+            'operations; (4) dmlc::istream over three recording streams, '
             'same buffer sizes, stream lengths {0,1,2,cap-1,cap,cap+1,2cap,2cap+1,37}: every sequence of <= 2-4 operations over '
-            '{get, peek, read of 0/1/2/cap/cap+1/5000 bytes via the istream or its rdbuf, seek of the wrapped stream} followed '
-            'by a drain, plus random sequences of up to 800 operations. Memory-stream cases run in a forked worker so that a '
+            '{get, peek, read of 0/1/2/cap/cap+1/5000 bytes via the istream members (state bits observed, no implicit clear) or its '
+            'rdbuf, clear, set_stream, seek of the wrapped stream} followed by a drain; set_stream scenarios (9 prefixes: before / exactly at / '
+            'after EOF with eofbit/failbit set x 8 switches: other stream, same stream, same stream after Seek, several switches x 4 '
+            'continuations); plus random sequences of up to 800 operations with set_stream/clear/seeks of detached streams. Memory-stream cases run in a forked worker so that a '
             'sanitizer abort is observed as the result ub:oob. A case is non-trivial when it performs at least one call after '
             'open; distinct = distinct hash of the op list.',
     'assumptions': [
@@ -35,7 +38,9 @@ CONFIG = {
         'contract of libstdc++ std::streambuf as modelled in Streams/Model.lean: sputc stores into [pptr, epptr) else calls '
         'overflow(c); default xsputn alternates filling the put area and overflow(next char); pubsync calls sync; sgetc/sbumpc '
         'use [gptr, egptr) else underflow/uflow; default uflow = underflow + gbump(1); default xsgetn alternates copying '
-        'the get area and uflow; ostream::put/write/flush/operator<< and istream::get/peek/read map 1:1 to these',
+        'the get area and uflow; ostream::put/write/flush/operator<< and istream::get/peek/read map 1:1 to these; '
+        'std::istream state bits as modelled: a sentry on a stream that is not good() sets failbit and extracts nothing, get sets '
+        'eofbit|failbit at the end, peek eofbit, read eofbit|failbit when short; basic_ios::rdbuf(sb) clears the state',
         'contract of stdio as modelled (fread/fwrite/fseek/ftell on a byte array with a position; holes read as zeros; a '
         'negative offset makes fseek fail)',
         'ASan/UBSan in the harness worker process decide whether the real code performed an out-of-bounds access',
